@@ -109,6 +109,12 @@ LEVEL_TEXT = (
     "ensemble carries the callback: the failure of any generation under any key escalates) and "
     "by_key_bookkeeping_misses_later_generations_witness (a bookkeeping by KEY that never forgets monitors the first generation only: "
     "the seeded change C20g; on the real code the regen_fail histories decide). "
+    "FULL, about the release of a dimension (Kopf.Model.C20_Release: terminate_redundancies stops and awaits the redundant tasks, THEN "
+    "forgets their keys; the orchestrator's exit stops what the ensemble knows; tie T release_stops_before_forgetting_eq): "
+    "release_leaves_nothing_behind (after ANY sequence of adjustments, with the cancellation arriving inside the last release's wait or "
+    "not at all, every live key is known: the exit leaves nothing behind) and forgetting_before_stopping_leaves_behind_witness (keys "
+    "forgotten before the wait: the released key is alive and unknown when interrupted, same end state when not — the seeded change "
+    "C20h; on the real code the drop_then_stop histories decide). "
     "WITNESS about the current tree: repeated_cancel_skips_cleanup_witness (deviation C20-D4, by design, replayed: a cancellation "
     "that arrives while operator() is already stopping skips the cleanup handlers; everything else is over before the return). "
     "HISTORICAL witnesses (about OLD code = a variant flag false, not about the tree; their corpus witnesses are replayed on real "
@@ -140,6 +146,7 @@ THEOREMS = [("Kopf.Props.C20", "Kopf.C20." + n) for n in [
     "head_abandoned_only_by_orchestrator_failure_partial", "orchestrator_own_failure_leaves_model_witness",
     "repeated_cancel_skips_cleanup_witness",
     "every_generation_monitored", "by_key_bookkeeping_misses_later_generations_witness",
+    "release_leaves_nothing_behind", "forgetting_before_stopping_leaves_behind_witness",
     "historical_stream_failure_lingers_witness", "historical_core_failure_lingers_witness",
     "historical_core_failure_skips_cleanup_witness", "historical_double_cancel_abandons_ensemble_witness",
     "historical_cancel_in_spawn_abandons_tasks_witness", "historical_cancel_while_stopping_abandons_tasks_witness",
@@ -149,7 +156,8 @@ TIE_THEOREMS = [("Kopf.Tie.C20", "Kopf.C20.Tie." + n) for n in [
     "escalates_eq", "head_is_fixed", "ignores_not_found_eq", "restarts_exited_eq", "scan_cancels_children_eq",
     "watches_core_eq", "head_core_variant", "shields_stop_eq", "head_shield_variant", "stops_pingers_last_eq", "sweeps_spawn_eq", "sweeps_stop_eq",
     "head_sweep_variant", "escalates_depletion_eq", "head_depletion_variant", "head_handles_cancellations",
-    "no_spawn_while_exiting_eq", "sweeps_own_failure_eq", "head_own_failure_variant", "monitors_by_task_eq"]]
+    "no_spawn_while_exiting_eq", "sweeps_own_failure_eq", "head_own_failure_variant", "monitors_by_task_eq",
+    "release_stops_before_forgetting_eq"]]
 RULE = ("seeded lifecycle histories: 0-2 startup handlers (ok / sleeping / temporary with retries / permanent / retries "
         "exhausted), 0-2 cleanup handlers (ok / sleeping / temporary / permanent), 0-2 daemons (obey / needs cancellation / "
         "swallows one cancellation / exits on its own / polls its flag with asyncio.sleep / needs time to unwind after the "
@@ -195,6 +203,10 @@ RULE = ("seeded lifecycle histories: 0-2 startup handlers (ok / sleeping / tempo
         "its timeout cannot hide in the slack of the bound). Beside the histories: kopf.run() — the synchronous run call — around a scripted "
         "operator() (returns / raises / is cancelled; with a loop of its own and without): what comes out of it, and that every argument "
         "reaches operator(). "
+        "drop_then_stop: a dimension of the ensemble is BEING RELEASED when the stop comes — the served CRD / the namespace of a namespaced "
+        "operator / the CRD of the second kind is deleted with update handlers (0.5-24 s) in flight on it since 0.25 s, or the peering CRD "
+        "with the farewell answered 0.25-1 s late and refused (retried); 4/64-2.5 s later (inside the release's wait, or just after it) "
+        "the stop: flag / cancellation / ERROR on the CRD observer's or the other kind's stream; at least one cleanup handler. "
         "A case is distinct by (trigger kind, phase, startup/cleanup outcome shapes, daemon modes, timer, second kind, empty "
         "vault, in-flight, peering, outcome); non-trivial when a trigger fires.")
 TRUSTED = ["harness/sim (virtual-time loop, fake API server, scripted handlers) and harness/props/sim_c20.py (attribute-level "
@@ -481,6 +493,13 @@ def extract(ctx: Ctx) -> None:
     term = _find_def(otree, "terminate_redundancies")
     comps = [n for n in ast.walk(term) if isinstance(n, ast.SetComp)]
     done_redundant = any(_calls(c, "done") and "get_tasks" in ast.unparse(c) for c in comps)
+    # (5b) terminate_redundancies: the redundant tasks are stopped (and awaited) BEFORE their keys are deleted from the ensemble
+    #      (`Kopf.Model.C20_Release`, variant stopFirst): top-level statements of the function, in order
+    i_stop = [k for k, st_ in enumerate(term.body) if any(isinstance(x, ast.Await) for x in ast.walk(st_)) and _calls(st_, "stop")]
+    i_del = [k for k, st_ in enumerate(term.body) if _calls(st_, "del_keys")]
+    if len(i_stop) != 1 or len(i_del) != 1:
+        raise ExtractError(f"terminate_redundancies has {len(i_stop)} awaited stop(…) and {len(i_del)} del_keys(…) statements: unknown shape")
+    stops_before_forgetting = i_stop[0] < i_del[0]
     # (6) scan_resources and its helpers: gather + cancel in finally, no as_completed
     for name in ("scan_resources", "_read_old_api", "_read_new_apis"):
         _find_def(stree, name)
@@ -572,7 +591,7 @@ def extract(ctx: Ctx) -> None:
                                    and any(isinstance(x, ast.Raise) for x in ast.walk(st_)) for st_ in after)
     facts = {"orchestratorSweepsOnOwnFailure": sweeps_own_failure, "watcherRechecksWorkerError": rechecks, "spawnTasksSweepsOnCancel": spawn_sweeps, "runTasksSweepsOnCancel": stop_sweeps, "killerMarksExiting": marks, "spawnHonoursExiting": honours, "rootTaskAwaitsCore": root_awaits_core, "coreErrorsAfterCleanup": core_after_cleanup,
              "orchestratorShieldsStop": shields_stop, "orchestratorStopsPingersLast": stops_pingers_last, "attachesDoneCallback": attaches, "monitorsByTaskObject": by_task, "callbackCancelsOrchestrator": cancels, "callbackIgnoresNotFound": ignores404,
-             "reraisesTaskError": reraises, "doneTasksAreRedundant": done_redundant, "scanGathers": gathers,
+             "reraisesTaskError": reraises, "doneTasksAreRedundant": done_redundant, "releaseStopsBeforeForgetting": stops_before_forgetting, "scanGathers": gathers,
              "scanCancelsInFinally": cancels_children, "scanUsesAsCompleted": uses_as_completed}
     ctx.extra["extracted_facts"] = facts
     text = ("/- GENERATED by harness/props/c20.py::extract from kopf/_core/reactor/orchestration.py, running.py, queueing.py,\n"
@@ -1076,7 +1095,13 @@ def oracle(sc: dict, obs: dict) -> tuple[list[tuple[str, dict]], dict]:
         failures = [f for f in failures if f not in dk_failed]
     facts["daemon_killer_crashed"] = bool(dk_failed)
     # the situations of the open findings C20-F8 … F11 (each reported under its own signature, see below)
-    double_cancel = [i for i, e in enumerate(log) if e[1] == "orchStopSubsCancelled" and i < end_pos]   # (not the harness' final kill)
+    # (a cancellation that interrupts the stop of `terminate_redundancies` (quiet) is merely the cancellation of the RUNNING
+    #  orchestrator arriving while it releases a dimension — not a second cancellation of its exit stop)
+    def _interrupts_exit_stop(i: int) -> bool:
+        begins = [j for j in range(i) if log[j][1] == "orchStopSubsBegin"]
+        return bool(begins) and not log[begins[-1]][3]
+    double_cancel = [i for i, e in enumerate(log) if e[1] == "orchStopSubsCancelled" and i < end_pos     # (not the harness' final kill)
+                     and _interrupts_exit_stop(i)]
     killer_pos = next((i for i, e in enumerate(log) if e[1] == "killerFinally"), None)
     # (a daemon is "late" when its TASK was created after the sweep: one whose handler merely begins after the sweep was seen
     #  by the killer and got its exit stopper)
@@ -1444,7 +1469,12 @@ TRIGGERS = ["flag", "flag", "cancel", "cancel", "watch_error_kex", "watch_error_
             "pause_stop_race",
             # a dimension of the orchestrator's ensemble is dropped and served AGAIN under the same key (once or twice); the task of
             # the NEW generation then fails for good (seeded change C20g: failures escalated for first-generation tasks only)
-            "regen_fail", "regen_fail"]
+            "regen_fail", "regen_fail",
+            # a dimension of the ensemble is BEING RELEASED — its streams are cancelled and deplete (a handler in flight on it), its
+            # keep-alive says its farewell (answered late) — when the stop comes: what is being released is still part of "everything
+            # else" that must have stopped before the cleanup (seeded change C20h: the keys were forgotten before the tasks had ended)
+            "drop_then_stop", "drop_then_stop"]
+DROP_DIMS = ["crd", "ns", "crd2", "peering", "ns", "crd"]
 REGEN_DIMS = ["crd", "http404", "ns", "peering", "crd", "http404"]
 PHASES = ["startup", "startup_end", "discovery", "spawning", "steady", "inflight"]
 
@@ -1477,6 +1507,13 @@ def gen_history(rng: Any, i: int, force: dict | None = None) -> dict:
         regen_dim = force.get("dim") or (REGEN_DIMS[PHASES.index(force["phase"])] if force.get("phase") in PHASES
                                          else rng.choice(REGEN_DIMS))
         peering = regen_dim == "peering" or (regen_dim != "ns" and rng.random() < 0.3)
+    drop_dim = None
+    if trigger == "drop_then_stop":
+        # WHICH dimension is being released at the stop: the (only) served CRD, the NAMESPACE of a namespaced operator, the CRD of
+        # the second served kind (the first stays), the PEERING CRD (the keep-alive's farewell is answered late / refused + retried)
+        drop_dim = force.get("dim") or (DROP_DIMS[PHASES.index(force["phase"])] if force.get("phase") in PHASES
+                                        else rng.choice(DROP_DIMS))
+        peering = drop_dim == "peering" or (drop_dim != "ns" and rng.random() < 0.25)
     handlers: list[dict] = []
     shape: dict[str, Any] = {"trigger": trigger, "peering": peering}
     # startup handlers
@@ -1527,7 +1564,7 @@ def gen_history(rng: Any, i: int, force: dict | None = None) -> dict:
         handlers.append({"kind": "daemon", "id": "dH", "daemon": dict(d), "opts": dict(opts)})
     shape["daemons"] = sorted(dm)
     SPECIAL = ("worker_fail_depletion", "respawn_daemon", "worker_fail_gone", "crd_gone", "cancel_in_spawn", "login_fail",
-               "login_fail_at_stop", "regen_fail")
+               "login_fail_at_stop", "regen_fail", "drop_then_stop")
     # a timer (same machinery as daemons: `_runner`, exit stoppers — but no cancellation_timeout can be configured for it:
     # an invocation in flight at the stop is always given up)
     has_timer = trigger not in SPECIAL and rng.random() < 0.25
@@ -1548,7 +1585,7 @@ def gen_history(rng: Any, i: int, force: dict | None = None) -> dict:
         handlers.append({"kind": "login", "id": "lg", "script": ["ok", "perm"], "default": "perm"})
     n_obj = rng.choice([0, 1, 1, 2, 3]) if trigger not in ("poison", "memo_poison", "login_fail", "worker_fail_depletion",
                                                               "respawn_daemon", "flag_then_cancel", "worker_fail_gone",
-                                                              "login_fail_at_stop", "cancel_in_hung_wait") \
+                                                              "login_fail_at_stop", "cancel_in_hung_wait", "drop_then_stop") \
         else rng.choice([1, 2])
     objects = [{"name": f"o{k}"} for k in range(n_obj)]
     # the trigger's moment
@@ -1561,7 +1598,7 @@ def gen_history(rng: Any, i: int, force: dict | None = None) -> dict:
     if trigger in ("worker_fail_depletion", "failure_then_stop", "two_failures", "flag_then_cancel", "respawn_daemon",
                    "worker_fail_gone", "login_fail_at_stop"):
         phase = "steady"
-    if trigger in ("cancel_in_hung_wait", "pause_stop_race", "regen_fail"):
+    if trigger in ("cancel_in_hung_wait", "pause_stop_race", "regen_fail", "drop_then_stop"):
         phase = "steady"
     if trigger in ("watch_http", "ns_stream", "orch_fail") and phase == "spawning":
         phase = rng.choice(["steady", "inflight"])
@@ -1589,7 +1626,8 @@ def gen_history(rng: Any, i: int, force: dict | None = None) -> dict:
     # a second served kind: its watch stream is one of "the other streams" the orchestrator stops after a stream failure, with a
     # handler in flight on it (the second G of the failure bound is consumed by a depletion, not only by the keep-alive task)
     second = trigger in ("watch_error_kex", "watch_error_crd", "watch_error_peering", "failure_then_stop", "two_failures", "flag",
-                         "cancel", "poison", "pinger_500", "regen_fail") and rng.random() < 0.35
+                         "cancel", "poison", "pinger_500", "regen_fail") and rng.random() < 0.35 \
+        or (trigger == "drop_then_stop" and (drop_dim == "crd2" or rng.random() < 0.3))
     if second:
         handlers.append({"kind": "update", "id": "u2", "resource": "kopfwidgets", "script": [],
                          "default": ["sleep", rng.choice([0.5, 1.5]), "ok"]})
@@ -1605,7 +1643,8 @@ def gen_history(rng: Any, i: int, force: dict | None = None) -> dict:
     # a NAMESPACED operator (namespaces=["ns"] instead of cluster-wide): the namespace observer runs a watch stream of its own,
     # the watchers are per (resource, namespace); without peering (the fake cluster has the cluster-wide peering object only)
     if trigger == "ns_stream" or (not peering and trigger not in SPECIAL + ("early_stop_peering",) and rng.random() < 0.2) \
-            or regen_dim == "ns" or (regen_dim in ("crd", "http404") and not peering and rng.random() < 0.3):
+            or regen_dim == "ns" or (regen_dim in ("crd", "http404") and not peering and rng.random() < 0.3) \
+            or drop_dim == "ns" or (drop_dim in ("crd", "crd2") and not peering and rng.random() < 0.3):
         sc["namespaced"] = ["ns"]
     shape["namespaced"] = bool(sc.get("namespaced"))
     if rng.random() < 0.3 and trigger not in ("worker_fail_depletion", "respawn_daemon", "worker_fail_gone"):
@@ -1684,6 +1723,54 @@ def gen_history(rng: Any, i: int, force: dict | None = None) -> dict:
             raise ValueError(f"unknown failure {how!r}")
         shape["regen"] = f"{regen_dim}x{cycles}:{how}"
         t = tt
+    elif trigger == "drop_then_stop":
+        # "… or a stop is requested, the WHOLE operator shuts down … cleanup handlers run after EVERYTHING ELSE has stopped": also the
+        # streams, workers, handlers in flight and keep-alives of a dimension the operator is just ceasing to serve. At `t` the
+        # dimension goes (CRD / namespace deleted: the observers revise the insights, the orchestrator cancels the dimension's tasks
+        # and waits for them); the release TAKES TIME: a handler of `dur` s is in flight on an object of it since t - 0.25 (its watcher
+        # depletes for up to `exit_timeout`), the farewell PATCH of the peering is answered late (and refused: retried). At t + δ,
+        # inside that window (or just after it), the stop comes: flag, cancellation, or a failure of ANOTHER essential stream.
+        # No daemons (as for crd_gone: the fake API drops the instances of a deleted CRD at once); at least one cleanup handler.
+        sc["crd_object"] = True
+        sc["handlers"] = handlers = [h for h in handlers if h["kind"] != "daemon"]
+        shape["daemons"] = []
+        if not any(h["kind"] == "cleanup" for h in handlers):
+            handlers.append({"kind": "cleanup", "id": "cl0", "script": rng.choice([["ok"], [["sleep", 0.5, "ok"]]]), "opts": {}})
+            shape["cleanup"] = ["ok"]
+        ops[:] = [o for o in ops if o[1] not in ("edit", "edit2")]
+        sc["settings"]["watching.reconnect_backoff"] = 0.125
+        flight = force.get("flight") or rng.choice([0.5, 1.5, 1.5, 3.0, 24.0])
+        for h in handlers:
+            if h["kind"] == "update":
+                h["default"] = ["sleep", flight, "ok"]
+        if drop_dim == "peering":
+            sc["peering_crd_object"] = True
+            sc["peering_response_latency"] = rng.choice([0.25, 0.5, 1.0])
+            if rng.random() < 0.5:
+                ops.append([t - 0.25, "edit", objects[0]["name"], 10])      # (a handler in flight on the dimension that STAYS)
+                shape["inflight"] = True
+            ops.append([t, "peering_crd_delete"])
+        else:
+            if peering:
+                sc["peering_response_latency"] = rng.choice([0.0, 0.25])
+            # (the handlers in flight are those of the dimension that GOES: one on the dimension that stays would keep the
+            #  orchestrator's exit waiting just as long and hide what has been forgotten; sometimes a SHORT one on the staying kind)
+            if drop_dim != "crd2":
+                for k_, o in enumerate(objects[:2]):
+                    ops.append([t - 0.25, "edit", o["name"], 10 + k_])
+            if second:
+                for h in handlers:
+                    if h["id"] == "u2":
+                        h["default"] = ["sleep", flight if drop_dim == "crd2" else 0.5, "ok"]
+                if drop_dim == "crd2" or rng.random() < 0.5:
+                    ops.append([t - 0.25, "edit2", "w0", 30])
+            shape["inflight"] = True
+            ops.append([t, {"crd": "crd_delete", "crd2": "crd2_delete", "ns": "ns_delete"}[drop_dim], *(["ns"] if drop_dim == "ns" else [])])
+        delta = force.get("delta") or rng.choice([4 / TPS, 0.125, 0.25, 0.25, 0.5, 1.0, 2.5])
+        stop = force.get("stop") or rng.choice(["flag", "flag", "cancel", "watch_error_crd"] + (["watch_error_kex"] if drop_dim in ("crd2", "peering") else []))
+        ops.append([t + delta, *(["watch_error", stop.rsplit("_", 1)[1]] if stop.startswith("watch_error_") else [stop])])
+        shape["drop"] = f"{drop_dim}:{stop}:flight={flight}:delta={'in' if delta <= 0.5 else 'late'}"
+        t = t + delta
     elif trigger == "early_stop_peering":
         # a stop within the first moments: the first keep-alive PATCH is applied by the API server but not yet answered
         sc["peering_response_latency"] = rng.choice([8 / TPS, 0.25, 0.5, 0.5])
@@ -1820,7 +1907,7 @@ def gen_history(rng: Any, i: int, force: dict | None = None) -> dict:
     probe = felt + b + 2.0
     if trigger == "regen_fail":
         ops.append([probe, "edit", "late", 99])
-    elif objects and trigger not in ("crd_gone",):
+    elif objects and trigger not in ("crd_gone", "drop_then_stop"):
         ops.append([probe, "edit", objects[0]["name"], 99])
     sc["ops"] = sorted(ops, key=lambda e: e[0])
     sc["end"] = probe + 8.0
